@@ -358,6 +358,11 @@ func (s *Server) handlePostHalt(w http.ResponseWriter, r *http.Request) {
 		return
 	}
 
+	if lockID == 0 {
+		Error(w, r, fmt.Errorf("halt lock id required"), http.StatusBadRequest)
+		return
+	}
+
 	// Cannot issue remote halt lock from this node.
 	if id, _ := litefs.ParseNodeID(r.Header.Get(HeaderNodeID)); id == s.store.ID() {
 		Error(w, r, fmt.Errorf("cannot remotely halt self"), http.StatusBadRequest)
